@@ -495,6 +495,10 @@ class KEval:
                 lp.broken = getattr(lp, "broken", ()) + (tuple(guards) + tuple(env.get("#path", ())),)
                 if lp.kind == "range":
                     lp.kind = "range-break"
+                if not hasattr(lp, "hi_nominal"):
+                    # fail closed for every rule that compares loop bounds directly: a loop that can be left early has no known upper end
+                    lp.hi_nominal = lp.hi
+                    lp.hi = TOP
             return "exit"
         if isinstance(st, ast.Expr):
             self.ev(st.value, env, S, f, guards, loops, depth)
